@@ -301,14 +301,27 @@ Proof.
   destruct (cli_of asg f); [tauto|]. destruct (env_of w f); [tauto|]. destruct (json_of ov f); tauto.
 Qed.
 
+Lemma set_T_ext o1 o2 k t : (forall k t, o1 k t = o2 k t) -> set_T o1 k t = set_T o2 k t.
+Proof. intros H. unfold set_T. destruct t; [reflexivity|]. destruct (in_model k (n :: t)); [destruct k; auto | apply H]. Qed.
+
+Lemma add_fields_ext o1 o2 : (forall k t, o1 k t = o2 k t) ->
+  forall fields fs st, add_fields o1 fields fs st = add_fields o2 fields fs st.
+Proof.
+  intros H. induction fields as [|f r IH]; intros fs st; cbn [add_fields]; [reflexivity|].
+  rewrite (set_T_ext o1 o2 _ _ H). destruct (starts_with_dash (fname f)); [reflexivity|].
+  destruct (mem 61 (fname f)); [reflexivity|]. destruct (defined fs (fname f)); [reflexivity|].
+  destruct (set_T o2 (fkind f) (fdef f)); [apply IH | reflexivity].
+Qed.
+
 Lemma sources_independent w1 w2 fs asg1 asg2 ov1 ov2 f v1 v2 :
-  w_set w1 = w_set w2 ->
+  (forall k t, w_set w1 k t = w_set w2 k t) ->
   winner_holds w1 asg1 ov1 f v1 -> winner_holds w2 asg2 ov2 f v2 ->
   top_source (cli_of asg1 f) (env_of w1 f) (json_of ov1 f) = top_source (cli_of asg2 f) (env_of w2 f) (json_of ov2 f) ->
   In f fs -> v1 = v2.
 Proof.
   intros Ho H1 H2 E _. apply winner_top_source in H1. apply winner_top_source in H2.
-  rewrite E, Ho in H1. destruct (top_source (cli_of asg2 f) (env_of w2 f) (json_of ov2 f)); congruence.
+  rewrite E in H1. destruct (top_source (cli_of asg2 f) (env_of w2 f) (json_of ov2 f));
+    try rewrite (set_T_ext _ _ _ _ Ho) in H1; congruence.
 Qed.
 
 Lemma empty_text_is_zero w asg ov f v :
@@ -503,7 +516,7 @@ Proof.
 Qed.
 
 Lemma run_sources_independent : forall w1 w2 fields args1 args2 s1 s2 rest1 rest2,
-  w_set w1 = w_set w2 ->
+  (forall k t, w_set w1 k t = w_set w2 k t) ->
   run w1 fields args1 = RParse (POk s1 rest1) -> run w2 fields args2 = RParse (POk s2 rest2) ->
   exists fs st0 asg1 asg2 ov1 ov2,
     new_flag_set (w_set w1) fields = NOk fs st0
@@ -516,7 +529,124 @@ Proof.
   intros w1 w2 fields args1 args2 s1 s2 rest1 rest2 Ho H1 H2.
   destruct (run_priority _ _ _ _ _ H1) as [fs [st0 [asg1 [ov1 [N1 [A1 [J1 P1]]]]]]].
   destruct (run_priority _ _ _ _ _ H2) as [fs' [st0' [asg2 [ov2 [N2 [A2 [J2 P2]]]]]]].
-  rewrite <- Ho, N1 in N2. injection N2 as <- <-. exists fs, st0, asg1, asg2, ov1, ov2. repeat split; try assumption.
+  unfold new_flag_set in N1, N2. rewrite <- (add_fields_ext _ _ Ho), N1 in N2. injection N2 as <- <-.
+  fold (new_flag_set (w_set w1) fields) in N1. exists fs, st0, asg1, asg2, ov1, ov2. repeat split; try assumption.
   intros f Hf E. destruct (P1 f Hf) as [v1 [G1 W1]]. destruct (P2 f Hf) as [v2 [G2 W2]].
   rewrite G1, G2. f_equal. exact (sources_independent w1 w2 fs asg1 asg2 ov1 ov2 f v1 v2 Ho W1 W2 E Hf).
 Qed.
+
+(** * an unparsable winning text makes Parse fail; nothing panics *)
+Lemma set_flags_fails w asg : forall fs st f t,
+  In f fs -> text_src w asg f = Some t -> set_T (w_set w) (fkind f) t = SErr -> set_flags w fs asg st = None.
+Proof.
+  induction fs as [|g r IH]; intros st f t Hf Et Es; [destruct Hf|].
+  cbn [set_flags]. fold (text_src w asg g). destruct Hf as [<-|Hf].
+  - rewrite Et, Es. reflexivity.
+  - destruct (text_src w asg g) as [tg|]; [|eapply IH; eassumption].
+    destruct (set_T (w_set w) (fkind g) tg); [eapply IH; eassumption | reflexivity].
+Qed.
+
+Lemma parse_unparsable_fails w fs st0 args asg rest f t :
+  arg_parse (table_of fs) args = Ok asg rest -> In f fs ->
+  text_src w asg f = Some t -> set_T (w_set w) (fkind f) t = SErr ->
+  parse w fs st0 args = PErr.
+Proof.
+  intros Ea Hf Et Es. unfold parse. rewrite Ea.
+  assert (F : forall st, finish w fs asg rest st = PErr).
+  { intros st. unfold finish. rewrite (set_flags_fails w asg fs st f t Hf Et Es). reflexivity. }
+  destruct (final_value asg config_name) as [tc|]; [rewrite set_T_string|];
+    (destruct (json_data w _) as [| |d]; [apply F | reflexivity | destruct (w_json w d); [apply F | reflexivity]]).
+Qed.
+
+Lemma parse_never_panics w fs st0 args : parse w fs st0 args <> PPanic.
+Proof.
+  unfold parse. pose proof (proj2 (proj2 (grammar_equiv (table_of fs) args))) as Hp.
+  destruct (arg_parse (table_of fs) args) as [asg rest|e|]; [|discriminate|contradiction].
+  assert (F : forall st, finish w fs asg rest st <> PPanic).
+  { intros st. unfold finish. destruct (set_flags w fs asg st); discriminate. }
+  destruct (final_value asg config_name) as [tc|]; [rewrite set_T_string|];
+    (destruct (json_data w _) as [| |d]; [apply F | discriminate | destruct (w_json w d); [apply F | discriminate]]).
+Qed.
+
+Lemma run_never_panics w fields args : run w fields args <> RParse PPanic.
+Proof.
+  unfold run. destruct (new_flag_set (w_set w) fields); [|discriminate].
+  intros H. injection H as H. exact (parse_never_panics _ _ _ _ H).
+Qed.
+
+Lemma run_unparsable_fails w fields args fs st0 asg rest f t :
+  new_flag_set (w_set w) fields = NOk fs st0 ->
+  arg_parse (table_of fs) args = Ok asg rest -> In f fs ->
+  match cli_of asg f with Some x => Some x | None => env_of w f end = Some t ->
+  set_T (w_set w) (fkind f) t = SErr ->
+  run w fields args = RParse PErr.
+Proof.
+  intros En Ea Hf Et Es. unfold run. rewrite En. f_equal.
+  exact (parse_unparsable_fails w fs st0 args asg rest f t Ea Hf Et Es).
+Qed.
+
+(** * tags *)
+Lemma cut_app sep a b : ~ In sep a -> cut sep (a ++ sep :: b) = Some (a, b).
+Proof.
+  induction a as [|c r IH]; cbn [app cut In]; intros H.
+  - rewrite N.eqb_refl. reflexivity.
+  - destruct (c =? sep) eqn:E; [apply N.eqb_eq in E; exfalso; apply H; left; exact E|].
+    rewrite IH; [reflexivity | intros A; apply H; right; exact A].
+Qed.
+
+Lemma cut_none sep s : ~ In sep s -> cut sep s = None.
+Proof.
+  induction s as [|c r IH]; cbn [cut In]; intros H; [reflexivity|].
+  destruct (c =? sep) eqn:E; [apply N.eqb_eq in E; exfalso; apply H; left; exact E|].
+  rewrite IH; [reflexivity | intros A; apply H; right; exact A].
+Qed.
+
+Definition name_or_lower (n fld : list N) : list N := match n with [] => ascii_lower fld | _ => n end.
+
+Lemma split_tag3 sep n v u fld : ~ In sep n -> ~ In sep v ->
+  split_tag sep (n ++ sep :: v ++ sep :: u) fld = (name_or_lower n fld, v, u).
+Proof. intros H1 H2. unfold split_tag. rewrite (cut_app sep n _ H1), (cut_app sep v u H2). reflexivity. Qed.
+
+Lemma split_tag2 sep n v fld : ~ In sep n -> ~ In sep v ->
+  split_tag sep (n ++ sep :: v) fld = (name_or_lower n fld, v, []).
+Proof. intros H1 H2. unfold split_tag. rewrite (cut_app sep n _ H1), (cut_none sep v H2). reflexivity. Qed.
+
+Lemma split_tag1 sep n fld : ~ In sep n -> split_tag sep n fld = (name_or_lower n fld, [], []).
+Proof. intros H1. unfold split_tag. rewrite (cut_none sep n H1). reflexivity. Qed.
+
+Lemma parse_tag_pipe t fld : parse_tag (124 :: t) fld = split_tag 124 t fld.
+Proof. reflexivity. Qed.
+
+Lemma parse_tag_comma t fld : (forall r, t <> 124 :: r) -> parse_tag t fld = split_tag 44 t fld.
+Proof.
+  intros H. destruct t as [|c r]; [reflexivity|]. unfold parse_tag.
+  destruct (c =? 124) eqn:E; [apply N.eqb_eq in E; subst c; exfalso; exact (H r eq_refl) | reflexivity].
+Qed.
+
+Lemma tag_syntax n v u fld : forall sep t,
+  (sep = 44 /\ (forall r, n <> 124 :: r) /\ t = (fun x => x)) \/ (sep = 124 /\ t = cons 124) ->
+  ~ In sep n -> ~ In sep v ->
+  parse_tag (t (n ++ sep :: v ++ sep :: u)) fld = (name_or_lower n fld, v, u)
+  /\ parse_tag (t (n ++ sep :: v)) fld = (name_or_lower n fld, v, [])
+  /\ parse_tag (t n) fld = (name_or_lower n fld, [], []).
+Proof.
+  intros sep t [[-> [Hn ->]] | [-> ->]] H1 H2.
+  - assert (A : forall x r, n ++ x <> 124 :: r \/ n = []).
+    { intros x r. destruct n as [|c n']; [right; reflexivity | left]. cbn [app]. intros E. injection E as -> _. exact (Hn n' eq_refl). }
+    repeat split.
+    + rewrite parse_tag_comma; [apply split_tag3; assumption|]. intros r E.
+      destruct n as [|c n']; [cbn [app] in E; discriminate E | cbn [app] in E; injection E as -> _; exact (Hn n' eq_refl)].
+    + rewrite parse_tag_comma; [apply split_tag2; assumption|]. intros r E.
+      destruct n as [|c n']; [cbn [app] in E; discriminate E | cbn [app] in E; injection E as -> _; exact (Hn n' eq_refl)].
+    + rewrite parse_tag_comma; [apply split_tag1; assumption | exact Hn].
+  - repeat split; rewrite parse_tag_pipe; [apply split_tag3 | apply split_tag2 | apply split_tag1]; assumption.
+Qed.
+
+Lemma flatten_struct group n fs :
+  flatten_field group (SStruct n fs) = flat_map (flatten_field (group ++ n ++ [95])) fs.
+Proof. cbn [flatten_field]. induction fs as [|x r IH]; [reflexivity|]. cbn [flat_map]. rewrite IH. reflexivity. Qed.
+
+Lemma flatten_leaf group n tag k :
+  flatten_field group (SLeaf n tag k) =
+  [ {| fname := fst (fst (parse_tag tag n)); fpath := group ++ n; fkind := k; fdef := snd (fst (parse_tag tag n)) |} ].
+Proof. cbn [flatten_field]. unfold flag_of_field. destruct (parse_tag tag n) as [[a b] c]. reflexivity. Qed.
